@@ -15,7 +15,7 @@ import (
 	"github.com/google/inverting-proxy/zz_verif/vx"
 )
 
-var prop = flag.String("prop", "C04", "C01|C02|C04|C05|C07|C08|C09|C20")
+var prop = flag.String("prop", "C04", "C01|C02|C04|C05|C07|C08|C09|C10|C20")
 
 func main() {
 	flag.Parse()
@@ -45,6 +45,8 @@ func scenarios(tier string) []vx.Scenario {
 		return out
 	case "C05":
 		return c05Scenarios(th)
+	case "C10":
+		return c10Scenarios(th)
 	case "C08":
 		return c08Scenarios(th)
 	case "C09":
@@ -539,6 +541,152 @@ func c05Scenarios(th bool) []vx.Scenario {
 					continue
 				}
 				out = append(out, c05Scenario(fl, ct, ch, pb))
+			}
+		}
+	}
+	return out
+}
+
+// ---------------- C10: sessions through the whole agent (with the websocket shim) ----------------
+
+// c10Scenario: one client session through main() with session tracking and the websocket shim: the
+// backend sets cookies (one scoped to a path) in answer to the first request; later plain requests and
+// shim open requests of the session must carry exactly the cookies a jar would send for their own URL.
+func c10Scenario(extra []string, setCookies []string, firstPath string) vx.Scenario {
+	name := fmt.Sprintf("c10/agent %v first=%s set=%q", extra, firstPath, setCookies)
+	return vx.Scenario{Name: name, PB: 0, Single: true, MaxSteps: 50000, MaxTime: time.Minute,
+		Setup: func(s *vs.Sched) func(*vs.Result) vx.Exec {
+			w := newWorld(s)
+			session := func() string {
+				u := w.uploadFor("a")
+				if u == nil {
+					return ""
+				}
+				raw := string(u.raw)
+				i := strings.Index(raw, "Set-Cookie: sess=")
+				if i < 0 {
+					return ""
+				}
+				v := raw[i+len("Set-Cookie: sess="):]
+				if j := strings.IndexAny(v, ";\r"); j >= 0 {
+					v = v[:j]
+				}
+				return v
+			}
+			plain := func(id, path string) func() string {
+				return func() string {
+					return fmt.Sprintf("GET %s HTTP/1.1\r\nHost: client.example\r\nX-Tok: %s\r\nCookie: own=1; sess=%s\r\n\r\n", path, id, session())
+				}
+			}
+			open := func(id, target string) func() string {
+				return func() string {
+					return fmt.Sprintf("POST /websocket-shim/open HTTP/1.1\r\nHost: client.example\r\nX-Tok: %s\r\nCookie: sess=%s\r\nContent-Length: %d\r\n\r\n%s", id, session(), len(target), target)
+				}
+			}
+			w.lists = []listReply{{ids: []string{"a"}}, {ids: []string{"b"}, after: "a"}, {ids: []string{"c"}, after: "b"}, {ids: []string{"d"}, after: "c"}, {ids: []string{"e"}, after: "d"}}
+			w.fetch["a"] = &fetchPlan{req: fmt.Sprintf("GET %s HTTP/1.1\r\nHost: client.example\r\nX-Tok: a\r\n\r\n", firstPath)}
+			w.backend["a"] = &backendPlan{header: http.Header{"Set-Cookie": setCookies}}
+			w.fetch["b"] = &fetchPlan{reqFn: open("b", "ws://client.example/app/socket-b")}
+			w.fetch["c"] = &fetchPlan{reqFn: open("c", "ws://client.example/other/socket-c")}
+			w.fetch["d"] = &fetchPlan{reqFn: plain("d", "/app/page")}
+			w.fetch["e"] = &fetchPlan{reqFn: plain("e", "/elsewhere")}
+			w.startAgent(append([]string{"--session-cookie-name=sess", "--shim-websockets", "--shim-path=websocket-shim"}, extra...)...)
+			return func(r *vs.Result) vx.Exec {
+				var x vx.Exec
+				baseViolations(r, &x)
+				if session() == "" {
+					if len(x.Violations) == 0 {
+						x.Violations = append(x.Violations, "NOSESSION: the first response did not issue a session cookie")
+					}
+					return x
+				}
+				// reference: which of the set cookies apply to a path (all are host-only cookies of client.example)
+				want := func(path string) []string {
+					var out []string
+					for _, sc := range setCookies {
+						nv := strings.SplitN(sc, ";", 2)[0]
+						scope := "/"
+						if i := strings.Index(sc, "Path="); i >= 0 {
+							scope = strings.SplitN(sc[i+5:], ";", 2)[0]
+						} else if j := strings.LastIndex(firstPath, "/"); j > 0 {
+							scope = firstPath[:j]
+						}
+						if scope == "/" || path == scope || strings.HasPrefix(path, strings.TrimSuffix(scope, "/")+"/") {
+							out = append(out, nv)
+						}
+					}
+					sort.Strings(out)
+					return out
+				}
+				got := func(h http.Header) []string {
+					var out []string
+					for _, line := range h["Cookie"] {
+						for _, c := range strings.Split(line, ";") {
+							c = strings.TrimSpace(c)
+							if c != "" && c != "own=1" {
+								out = append(out, c)
+							}
+						}
+					}
+					sort.Strings(out)
+					return out
+				}
+				var obs []string
+				check := func(what, path string, h http.Header) {
+					g, wnt := got(h), want(path)
+					obs = append(obs, fmt.Sprintf("%s:%q", path, g))
+					if strings.Join(g, "; ") != strings.Join(wnt, "; ") {
+						x.Violations = append(x.Violations, fmt.Sprintf("BACKENDCOOKIES: the %s for %s carried the session's cookies %q, a jar holding %q (set on %s) sends %q there", what, path, g, setCookies, firstPath, wnt))
+					}
+					for _, c := range g {
+						if strings.HasPrefix(c, "sess=") {
+							x.Violations = append(x.Violations, fmt.Sprintf("SESSIONCOOKIE: the session cookie itself reached the backend (%s for %s)", what, path))
+						}
+					}
+				}
+				nd := 0
+				for _, d := range w.ws.Dials {
+					u := d.URL[strings.Index(d.URL, "//")+2:]
+					check("websocket handshake", u[strings.Index(u, "/"):], d.Header)
+					nd++
+				}
+				np := 0
+				for _, c := range w.calls {
+					if c.tok == "d" || c.tok == "e" {
+						check("request", c.target, c.header)
+						np++
+					}
+				}
+				if (nd != 2 || np != 2) && len(x.Violations) == 0 && !r.Exited {
+					x.Violations = append(x.Violations, fmt.Sprintf("INCOMPLETE: %d websocket dials and %d later requests reached the backend, 2 and 2 expected", nd, np))
+				}
+				for _, id := range []string{"a", "d", "e"} {
+					if u := w.uploadFor(id); u != nil {
+						for _, line := range strings.Split(string(u.raw), "\r\n") {
+							if strings.HasPrefix(line, "Set-Cookie:") && !strings.HasPrefix(line, "Set-Cookie: sess=") {
+								x.Violations = append(x.Violations, fmt.Sprintf("LEAK: %q reached the client in the response to %s", line, id))
+							}
+						}
+					}
+				}
+				x.Obs = strings.Join(obs, " ")
+				return x
+			}
+		}}
+}
+
+func c10Scenarios(th bool) []vx.Scenario {
+	var out []vx.Scenario
+	sets := [][]string{
+		{"tok=1; Path=/app"},
+		{"tok=1"},
+		{"tok=1; Path=/", "scoped=2; Path=/app/"},
+		{"tok=1; Path=/other; HttpOnly", "u=3; Secure"},
+	}
+	for _, extra := range [][]string{nil, {"--rewrite-websocket-host"}, {"--inject-banner=<b>x</b>", "--forward-user-id"}} {
+		for _, sc := range sets {
+			for _, fp := range []string{"/app/login", "/"} {
+				out = append(out, c10Scenario(extra, sc, fp))
 			}
 		}
 	}
